@@ -18,6 +18,7 @@ structure HConf where
   maxReqTimeoutMs : Int         -- int64(MaxReqTimeout / time.Millisecond)
   tlsRefuse : Bool              -- !tlsEnabled && tlsRequired
   cfgNames : List Bytes         -- option names `getOptByCfgName` finds (reflection over Options)
+  cfgStrNames : List Bytes := []  -- those of them whose Go type is `string` (answered as raw text, `HttpFull`)
 
 structure Request where
   method : Bytes
